@@ -33,8 +33,8 @@ type verifHlState struct {
 // verifHlArbitrary: every file is absent, a plain file with its own chunk, or one of the names of the
 // hard link (shared chunks 3,c1 3,c2); the link counter equals the number of names (the invariant).
 func verifHlArbitrary() *verifHlState {
-	ns := &verifNs{store: filer.VerifNewMemStore(), ctx: context.Background()}
-	ns.f = filer.VerifNewFiler(ns.store)
+	ns := &verifNs{store: filer.VhNewMemStore(), ctx: context.Background()}
+	ns.f = filer.VhNewFiler(ns.store)
 	ns.fs = &FilerServer{filer: ns.f}
 	st := &verifHlState{verifNs: ns, kind: map[string]int{}}
 	ns.store.InsertEntry(ns.ctx, &filer.Entry{FullPath: "/a", Attr: filer.Attr{Mode: os.ModeDir | 0755}})
@@ -68,7 +68,7 @@ func verifChunkIds(e *filer.Entry) []string {
 // verifHlReferenced: the chunk ids reachable from live entries (hard links resolved by the real store wrapper).
 func (st *verifHlState) referenced() map[string]bool {
 	ref := map[string]bool{}
-	paths, _ := st.store.VerifSnapshot()
+	paths, _ := st.store.VhSnapshot()
 	for _, p := range paths {
 		e, err := st.f.FindEntry(st.ctx, util.FullPath(p))
 		if err == nil && e != nil {
@@ -84,7 +84,7 @@ var verifAllChunkIds = []string{"3,c1", "3,c2", "3,p0", "3,p1", "3,p2", "3,n1", 
 
 // verifHlCheck: the assertions shared by every step.
 func (st *verifHlState) check(before map[string]bool, requestedDataDeletion bool) {
-	deleted := filer.VerifDeletedFileIds(st.f)
+	deleted := filer.VhDeletedFileIds(st.f)
 	after := st.referenced()
 	for _, id := range deleted {
 		rt.Assert(!after[id], "no-referenced-chunk-is-deleted")
@@ -98,7 +98,7 @@ func (st *verifHlState) check(before map[string]bool, requestedDataDeletion bool
 		}
 	}
 	// hard link bookkeeping
-	paths, _ := st.store.VerifSnapshot()
+	paths, _ := st.store.VhSnapshot()
 	names := 0
 	var first *filer.Entry
 	for _, p := range paths {
@@ -134,7 +134,7 @@ func (st *verifHlState) check(before map[string]bool, requestedDataDeletion bool
 	if first != nil {
 		rt.Assert(int(first.HardLinkCounter) == names, "link-counter-equals-number-of-names")
 	}
-	rt.Assert((st.store.VerifKvLen() > 0) == (names > 0), "shared-record-exists-exactly-while-a-name-exists")
+	rt.Assert((st.store.VhKvLen() > 0) == (names > 0), "shared-record-exists-exactly-while-a-name-exists")
 }
 
 // C20/C21 (delete): deleting a file or the directory, with or without data deletion.
